@@ -25,7 +25,6 @@ RULE = ("seeded random frames with >= 1 row over bool/int/float/str/date/datetim
 ASSUMPTIONS = [
     "dtype of date/datetime/object columns and of all-missing columns is not asserted",
     "JSON has no date type: a date/datetime column is read back with the documented dtypes= map; without a map it must come back as the ISO text of each value with null at NA",
-    "on the pandas leg datetimes are drawn from 1900-2100 (pandas stores datetime64[ns])",
 ]
 REACH = {"quick": {"target:lod": 500, "target:json": 500, "target:pandas": 500, "target:arrow": 500, "na-first": 500, "all-missing-column": 200, "intermediate-checked": 3000}}
 
